@@ -149,9 +149,18 @@ def run_connect(case, shared_home=None):
         orig_post = sshmod.SSHSession._post_connect
         cb_calls = []
 
+        def fp_of(k):
+            hx = K[k].get_fingerprint().hex()
+            return ':'.join(hx[i:i + 2] for i in range(0, len(hx), 2))
+        presented = case.get('server_key', 'server')
+        # the callback decides BY FINGERPRINT, as its documentation intends: an accepting caller has the presented key's fingerprint on its
+        # allow-list, a refusing caller has the fingerprints of the other keys (those known_hosts may list for the host) but not this one
+        allow = {fp_of(presented)} if case['cb'] else {fp_of(k) for k in ('server', 'other', 'third') if k != presented}
+
         def cb(h, fp):
-            log.append('callback:%d' % (1 if case['cb'] else 0))
-            return case['cb']
+            verdict = h == host and str(fp).lower() in allow
+            log.append('callback:%d' % (1 if verdict else 0))
+            return verdict
 
         def post(self, timeout=None):
             log.append('hello')
